@@ -49,6 +49,10 @@ def conv(ty, v):
         return int(v)
     if ty in ("float", "double"):
         return f32(float(v))
+    if ty in ("String", "const String &", "String &"):
+        return v if isinstance(v, str) else str(v)
+    if ty == "char" and isinstance(v, int):
+        return chr(v)
     return v
 
 
@@ -75,6 +79,9 @@ class Kern:
                 return int(v)
             if isinstance(v, (int, float)):
                 return v
+            if isinstance(v, str):
+                # string / character literal (clang keeps the quotes of string literals)
+                return v[1:-1] if len(v) >= 2 and v[0] == '"' and v[-1] == '"' else v
             raise KernUnsupported(f"literal {v!r}")
         if t == "var":
             if e[1] in self.env:
@@ -86,6 +93,8 @@ class Kern:
             return conv(e[1], self.ev(e[2]))
         if t == "ctor" and len(e[2]) == 1:
             return conv(e[1], self.ev(e[2][0]))
+        if t == "ctor" and len(e[2]) == 0 and (e[1] or "").startswith("String"):
+            return ""
         if t == "un":
             a = self.ev(e[2])
             if e[1] == "-":
@@ -137,6 +146,18 @@ class Kern:
             return 0
         if t == "mcall":
             args = [self.ev(a) for a in e[3]]
+            recv = e[1]
+            if recv[0] == "var" and isinstance(self.env.get(recv[1]), str):
+                sv = self.env[recv[1]]
+                if e[2] == "length":
+                    return len(sv)
+                if e[2] == "substring":
+                    a0 = max(0, min(len(sv), args[0]))
+                    b0 = len(sv) if len(args) < 2 else max(0, min(len(sv), args[1]))
+                    return sv[a0:b0] if a0 <= b0 else sv[b0:a0]
+                if e[2] == "charAt":
+                    return sv[args[0]] if 0 <= args[0] < len(sv) else "\0"
+                raise KernUnsupported(f"String.{e[2]}")
             self.events.append((e[2], tuple(args)))
             return 0
         raise KernUnsupported(f"expression {t}")
@@ -144,6 +165,12 @@ class Kern:
     @staticmethod
     def arith(op, a, b):
         both_int = isinstance(a, int) and isinstance(b, int)
+        if isinstance(a, str) or isinstance(b, str):
+            if op == "+" and isinstance(a, str) and isinstance(b, str):
+                return a + b
+            if op in ("==", "!=") and isinstance(a, str) and isinstance(b, str):
+                return int((a == b) == (op == "=="))
+            raise KernUnsupported(f"string operand of {op}")
         if op == "+":
             r = a + b
         elif op == "-":
@@ -221,3 +248,33 @@ class Kern:
             raise _Return(self.ev(st["e"]) if st["e"] is not None else None)
         else:
             raise KernUnsupported(f"statement {k}")
+
+
+class CallKern(Kern):
+    """Kern that also enters helper functions of a given table (template helpers calling each other); events are shared."""
+
+    def __init__(self, fns, env=None, types=None, consts=None, max_steps=200000):
+        super().__init__(env=env, types=types, max_steps=max_steps)
+        self.fns = fns
+        self.consts = dict(consts or {})
+        self.env.update(self.consts)
+
+    def ev(self, e):
+        if e[0] == "call" and isinstance(e[1], str) and e[1] in self.fns:
+            fn = self.fns[e[1]]
+            args = [self.ev(a) for a in e[2]]
+            sub = CallKern(self.fns, consts=self.consts, max_steps=self.max_steps)
+            sub.events = self.events
+            sub.steps = self.steps
+            for (pn, pt), v in zip(fn["params"], args):
+                base_t = (pt or "").replace("const ", "").replace("&", "").strip()
+                sub.env[pn] = conv(base_t, v) if base_t in INT_TYPES | FLOAT_TYPES | {"bool", "String", "char"} else v
+                sub.types[pn] = base_t
+            ret = 0
+            try:
+                sub.block(fn["body"])
+            except _Return as r_:
+                ret = r_.v if r_.v is not None else 0
+            self.steps = sub.steps
+            return ret
+        return super().ev(e)
